@@ -482,7 +482,12 @@ class ActionKinds:
             return vk('Identifier')
         if d in self.module_funcs:
             file, fn = self.module_funcs[d]
-            val = self.call_function(fn, file, args, kw, e, sink)
+            # a helper that is handed the production slice itself sees the names of THIS production
+            pctx = None
+            for i, a_ in enumerate(e.args):
+                if pvar is not None and isinstance(a_, ast.Name) and a_.id == pvar and i < len(fn.args.args):
+                    pctx = (prod, fn.args.args[i].arg)
+            val = self.call_function(fn, file, args, kw, e, sink, pctx=pctx)
             known_ret = {'tokens_to_string': vk('str'), 'unquote_string_token': vk('str'), 'variable_token_to_name': vk('str'), 'param_to_identifier': vk('Identifier'),
                          'ensure_select_keyword_order': vk('None'), 'path_str_to_parts': V(['list'], vk('str'))}
             return known_ret.get(d, val)
@@ -666,7 +671,7 @@ class ActionKinds:
         pvar = fn.args.args[1].arg
         return self.run_body(fn, {}, prod, pvar, sink)
 
-    def call_function(self, fn, file, args, kw, e, sink, self_kind=None):
+    def call_function(self, fn, file, args, kw, e, sink, self_kind=None, pctx=None):
         """abstract call of a repository function / constructor with the given argument values (depth-limited)"""
         if self._depth >= 3:
             return vk(UNK)
@@ -692,7 +697,7 @@ class ActionKinds:
             st[a.vararg.arg] = V(['tuple'], vk(UNK))
         if a.kwarg:
             st[a.kwarg.arg] = V(['dict'], vk(UNK), None)
-        key = (id(fn), repr(sorted((k, repr(v)) for k, v in st.items())))
+        key = (id(fn), repr(sorted((k, repr(v)) for k, v in st.items())), None if pctx is None else (pctx[0].number, pctx[1]))
         if key in self._summaries:
             val, finds = self._summaries[key]
         else:
@@ -700,8 +705,8 @@ class ActionKinds:
             finds = []
             self._depth += 1
             try:
-                val = self.run_body(fn, st, _NOPROD, None, lambda kind, node, info: finds.append((kind, node, info)),
-                                    allowed_raise=('ParsingException',))
+                val = self.run_body(fn, st, pctx[0] if pctx else _NOPROD, pctx[1] if pctx else None,
+                                    lambda kind, node, info: finds.append((kind, node, info)), allowed_raise=('ParsingException',))
             finally:
                 self._depth -= 1
             self._summaries[key] = (val, finds)
